@@ -376,10 +376,13 @@ func runProgK(dt string, prog string, keep bool) string {
 		if spareClobbered() {
 			st += "!wrote-beyond-callers-slice"
 		}
+		if !keep && callerSliceMutated() {
+			st += "!mutated-callers-slice"
+		}
 		if !keep {
 			scribble() // (progk reports the retained axes lists themselves, so it keeps them intact)
 		} else {
-			handed = handed[:0]
+			handed, handedCopy = handed[:0], handedCopy[:0]
 		}
 		if st == "panic" {
 			out = append(out, "panic")
